@@ -18,13 +18,16 @@
    output  <step out> | <step out> | … || S<i>=<noop resps>/<view> … || F0=<view> F1=<view> F2=<view>
            step out: `-` (C, X) or `<status>:<resps>`, PROBE `P:<view>/<resps>` (`P:none`: nothing selected);
            status ok | refused | no-<err> | panic; view = `<uid>:<flags>+…`; resps as in Codec, without RECENT
-           and `\recent`, every run of consecutive FETCHes ordered by sequence number. -/
+           and `\recent`, every run of consecutive FETCHes ordered by sequence number; a last item `I` on STORE / PROBE =
+           the tagged completion carries `[EXPUNGEISSUED]`. -/
 import GluonModel.Driver.DJudgeTrace
 import GluonModel.Model.System
 
 -- DIALECT: sys SysD.runSys
 -- DIALECT: judge-c02-sys SysD.judgeC02
 -- DIALECT: judge-c01-sys SysD.judgeC01
+-- DIALECT: judge-c05-sys SysD.judgeC05
+-- DIALECT: judge-c05-sys-strict SysD.judgeC05Strict
 namespace Gluon.Driver.SysD
 open Gluon Codec Gluon.Sys
 
@@ -97,6 +100,13 @@ def doOp (d : DState) (op : SysOp) : DState × Out :=
   let (s', o) := step d.sys op
   ({ d with sys := s', overtakes := if opNoOvertakeB d.sys op then d.overtakes else d.overtakes + 1 }, o)
 
+/-- `Mailbox.ExpungeIssued()` of session `i`: a removal is held back -/
+def issuedOf (s : Sys) (i : Nat) : Bool := ((s.sess[i]?).map fun me => expungeIssued me.res).getD false
+
+/-- the pseudo-response `I`: the tagged completion of STORE / FETCH carries `[EXPUNGEISSUED]` -/
+def withIssued (b : Bool) (resps : String) : String :=
+  if !b then resps else if resps == "-" then "I" else resps ++ ";I"
+
 def parseStoreOp (s : String) : Option (FlagOp × Bool) :=
   match s with
   | "+" => some (.add, false) | "-" => some (.rem, false) | "=" => some (.set, false)
@@ -148,7 +158,7 @@ def doStep (d : DState) (w : List String) : Option DState :=
     | ["STORE", seqs, op, fl] =>
       let (op, silent) ← parseStoreOp op
       let (d', o) := doOp d (.cmd i (.store (parseSeqs seqs) op (parseFlags fl) silent))
-      some (emit d' (showOut o))
+      some (emit d' s!"{showStatus o.status}:{withIssued (o.status == .ok && issuedOf d'.sys i) (showResps (canonResps o.resps))}")
     | ["EXPUNGE"] =>
       let (d', o) := doOp d (.cmd i .expunge)
       some (emit d' (showOut o))
@@ -171,7 +181,8 @@ def doStep (d : DState) (w : List String) : Option DState :=
         | none => some (emit d "P:none")
         | some _ =>
           let (d', o) := doOp d (.flush i false)
-          some (emit d' s!"P:{showView me.snap}/{showResps (canonResps o.resps)}")
+          -- FETCH 1:* is refused (BAD, no response code) on an empty mailbox
+          some (emit d' s!"P:{showView me.snap}/{withIssued (!me.snap.isEmpty && issuedOf d'.sys i) (showResps (canonResps o.resps))}")
     | _ => none
   | _ => none
 
@@ -313,7 +324,7 @@ where
   afterEq (w : String) : String := "=".intercalate ((w.splitOn "=").drop 1)
 
 /-- the events (DJudgeTrace vocabulary) one answer contributes to the trace of its session -/
-def eventsOfResps (r : String) : List String := splitNonEmpty r ";"
+def eventsOfResps (r : String) : List String := (splitNonEmpty r ";").filter (· != "I")
 
 def eventsOfView (v : String) : List String :=
   let entries := if v == "-" then [] else v.splitOn "+"
@@ -383,5 +394,228 @@ def judgeC01 (args : List String) : String :=
         if traces.all (·.length ≤ 4) then "ok trivial"
         else if ov > 0 then "ok nontrivial-overtake-explicable" else "ok nontrivial-fifo"
     | _, _ => "violation unparsable-history"
+
+/-! ### judge-c05-sys
+
+C05 on what the IMPLEMENTATION answered in a `sys` history:
+ (a) no untagged EXPUNGE in the answer to a command that does not permit it (STORE, COPY, FETCH = PROBE, any refused
+     command) — in every history, whatever the schedule;
+ (b) per session and message the announcements are ordered: the client is never shown two instances of one message
+     at a time (a re-add's EXISTS comes after the removal's EXPUNGE).  Instances are the positions of the client's
+     view, identified by the UIDs the session answered (PROBE, final view); which UIDs of a mailbox are the same
+     message is read off the model's index (UIDs are never reused, the correspondence compares them);
+ (c) after the quiescent end (every queue applied, a permitting NOOP) every message the session still shows is in the
+     authoritative mailbox (`removal-never-announced`) and vice versa (`addition-never-announced`);
+ (d) `[EXPUNGEISSUED]` (item `I`) iff removals are held back: after `I` the session's next permitting command
+     announces an EXPUNGE; if that command is the very next step, also conversely.
+(b)–(d) are the system-level theorems' conclusions (Theorems/SysC05.lean) and carry their hypothesis `NoOvertake`: on a
+schedule outside it `judge-c05-sys` answers `ok outside-NoOvertake …` (the same history is reported by the C01 / C02
+judges), `judge-c05-sys-strict` words it `violation # property C05: …` like the history oracle. -/
+
+structure Slot where
+  uid : Option Nat := none
+  mb : String
+  born : Nat
+  died : Option Nat := none
+
+structure C05State where
+  cur : List Slot := []
+  dead : List Slot := []
+  mb : Option String := none
+  t : Nat := 0
+  /-- `I` seen and not yet followed by a permitting command: (step index) -/
+  pendingIssued : Option Nat := none
+  always : Option String := none     -- a violation of (a)
+  inside : Option String := none     -- a violation of (b)–(d)
+  sawX : Bool := false
+  sawI : Bool := false
+
+def C05State.closeAll (c : C05State) : C05State :=
+  { c with dead := c.dead ++ c.cur.map (fun sl => { sl with died := some c.t }), cur := [], pendingIssued := none }
+
+def C05State.flagInside (c : C05State) (why : String) : C05State :=
+  if c.inside.isSome then c else { c with inside := some why }
+
+/-- untagged EXISTS / EXPUNGE of one answer -/
+def C05State.feed (c : C05State) (resps : String) : C05State :=
+  (eventsOfResps resps).foldl (fun c ev =>
+    let c := { c with t := c.t + 1 }
+    if ev.startsWith "E" then
+      let n := nat! (ev.drop 1).toString
+      if n > c.cur.length then
+        { c with cur := c.cur ++ (List.range (n - c.cur.length)).map fun _ => { mb := c.mb.getD "?", born := c.t } }
+      else c
+    else if ev.startsWith "X" then
+      let k := nat! (ev.drop 1).toString
+      match c.cur[k - 1]? with
+      | some sl => if k == 0 then c else
+        { c with cur := c.cur.eraseIdx (k - 1), dead := c.dead ++ [{ sl with died := some c.t }], sawX := true }
+      | none => c
+    else c) c
+
+/-- the UIDs a FETCH 1:* answered, position by position -/
+def C05State.learn (c : C05State) (view : String) : C05State :=
+  let uids := (if view == "-" then [] else view.splitOn "+").map fun e => nat! (beforeColon e)
+  if uids.length != c.cur.length then c
+  else { c with cur := (c.cur.zip uids).map fun p => { p.1 with uid := some p.2 } }
+
+def hasX (resps : String) : Bool := (eventsOfResps resps).any (·.startsWith "X")
+def hasI (resps : String) : Bool := (splitNonEmpty resps ";").any (· == "I")
+
+/-- (mailbox index, UID) ↦ message id, for every row the model's index ever held -/
+def modelRows (p : Parsed) : Option (Nat × List ((Nat × Nat) × Nat)) :=
+  match parseHeader p.header with
+  | none => none
+  | some n =>
+    let d0 : DState := { sys := Sys.init n mboxNames.length, held := List.replicate n false }
+    let collect (acc : List ((Nat × Nat) × Nat)) (s : Sys) : List ((Nat × Nat) × Nat) :=
+      (List.range s.idx.boxes.length).foldl (fun acc mb =>
+        (s.idx.box mb).rows.foldl (fun acc r => if acc.any (·.1 == (mb, r.uid)) then acc else acc ++ [((mb, r.uid), r.id)]) acc) acc
+    let rec go (d : DState) (acc : List ((Nat × Nat) × Nat)) : List (List String) → Option (DState × List ((Nat × Nat) × Nat))
+      | [] => some (d, acc)
+      | st :: more => match doStep d st with
+        | none => none
+        | some d' => go d' (collect acc d'.sys) more
+    (go d0 [] p.steps).map fun r => (r.1.overtakes, r.2)
+
+def judgeC05With (strict : Bool) (args : List String) : String :=
+  match parseJudge args with
+  | none => if args.any (· == "panic") then "violation # property C05: server panic" else "ok outside-unparsable"
+  | some p =>
+    match parseHeader p.header, modelRows p with
+    | some n, some (ov, rows) =>
+      let fresh := p.finalF.map fun w => "=".intercalate ((w.splitOn "=").drop 1)
+      let steps := (p.steps.zip p.outs)
+      let idx := List.range steps.length
+      let st0 : List C05State := List.replicate n {}
+      let sts := (idx.zip steps).foldl (fun (sts : List C05State) (kso : Nat × List String × String) =>
+        let k := kso.1
+        let w := kso.2.1
+        let out := kso.2.2
+        match w with
+        | s :: rest =>
+          match parseSess s with
+          | none => sts
+          | some i =>
+            let c := sts.getD i {}
+            let st := beforeColon out
+            let body := afterColon out
+            let c : C05State :=
+              match rest with
+              | ["SELECT", mb] =>
+                if st == "ok" then
+                  let c := c.closeAll
+                  let c := { c with mb := some mb, t := c.t + 1 }
+                  { c with cur := (List.range (nat! ((body.drop 1).toString))).map fun _ => { mb := mb, born := c.t } }
+                else c
+              | ["UNSELECT"] => if st == "ok" then { c.closeAll with mb := none } else c
+              | ["PROBE"] =>
+                if out == "P:none" then c else
+                match body.splitOn "/" with
+                | [v, r] =>
+                  let c := c.learn v
+                  let c := if hasX r && c.always.isNone then { c with always := some s!"S{i}: untagged EXPUNGE while answering FETCH (step {k})" } else c
+                  let c := c.feed r
+                  if hasI r then { c with pendingIssued := some k, sawI := true } else
+                    -- nothing held back: a NOOP right after must announce no removal (checked below through `notIssuedAt`)
+                    { c with pendingIssued := none }
+                | _ => c
+              | _ =>
+                let kind := rest.headD ""
+                let nonPermitting := kind == "STORE" || kind == "COPY" || st == "refused"
+                let c := if nonPermitting && hasX body && c.always.isNone then
+                  { c with always := some s!"S{i}: untagged EXPUNGE while answering {kind} ({st}, step {k})" } else c
+                let permitting := st == "ok" && (kind == "NOOP" || kind == "EXPUNGE" || kind == "MOVE" ||
+                  (kind == "APPEND" && rest.getD 1 "" == c.mb.getD "?"))
+                let c := if permitting then
+                    match c.pendingIssued with
+                    | some k0 =>
+                      let c := if !hasX body then c.flagInside s!"expungeissued-without-removal: S{i}: [EXPUNGEISSUED] at step {k0} but the next permitting command ({kind}, step {k}) announced no removal" else c
+                      { c with pendingIssued := none }
+                    | none => c
+                  else c
+                let c := c.feed body
+                if kind == "STORE" && st == "ok" then
+                  if hasI body then { c with pendingIssued := some k, sawI := true } else c
+                else c
+            sts.set i c
+        | [] => sts) st0
+      -- (d), converse: STORE ok / PROBE without `I`, and the very next step is the same session's NOOP announcing a removal
+      let conv : Option String := (idx.zip steps).findSome? fun kso =>
+        let k := kso.1
+        let w := kso.2.1
+        let out := kso.2.2
+        match w, steps[k + 1]? with
+        | s :: rest, some (s' :: ["NOOP"], out') =>
+          if s != s' then none else
+          let isStore := rest.headD "" == "STORE" && beforeColon out == "ok"
+          let isProbe := rest == ["PROBE"] && out != "P:none" && !(afterColon out).startsWith "-/"
+          let body := if isProbe then ("/".intercalate (((afterColon out).splitOn "/").drop 1)) else afterColon out
+          if (isStore || isProbe) && !hasI body && hasX (afterColon out') then
+            some s!"removal-without-expungeissued: {s}: no [EXPUNGEISSUED] at step {k} but the NOOP right after announced a removal"
+          else none
+        | _, _ => none
+      -- the quiescent end
+      let sts := p.finalS.foldl (fun (sts : List C05State) w =>
+        match w.splitOn "=" with
+        | name :: _ =>
+          let v := "=".intercalate ((w.splitOn "=").drop 1)
+          if v == "none" then sts else
+          match parseSess name with
+          | none => sts
+          | some i =>
+            let c := sts.getD i {}
+            match (afterColon v).splitOn "/" with
+            | [r, view] =>
+              let c := match c.pendingIssued with
+                | some k0 => if !hasX r then c.flagInside s!"expungeissued-without-removal: S{i}: [EXPUNGEISSUED] at step {k0} but the final NOOP announced no removal" else c
+                | none => c
+              let c := c.feed r
+              let c := c.learn view
+              -- (c)
+              let mine := (if view == "-" then [] else view.splitOn "+").map fun e => nat! (beforeColon e)
+              let mbName := c.mb.getD "?"
+              let fv := fresh.getD ((parseMbox mbName).getD 0) "-"
+              let theirs := (if fv == "-" || fv == "?" then [] else fv.splitOn "+").map fun e => nat! (beforeColon e)
+              let c := match mine.find? (fun u => !theirs.contains u) with
+                | some u => c.flagInside s!"removal-never-announced: S{i} ({mbName}): after quiescence + NOOP the session still shows UID {u}, which the mailbox no longer holds (session [{view}] fresh [{fv}])"
+                | none =>
+                  match theirs.find? (fun u => !mine.contains u) with
+                  | some u => c.flagInside s!"addition-never-announced: S{i} ({mbName}): after quiescence + NOOP the session does not show UID {u}, which the mailbox holds (session [{view}] fresh [{fv}])"
+                  | none =>
+                    if c.cur.length != mine.length then
+                      c.flagInside s!"announced-count-differs: S{i} ({mbName}): the client was told {c.cur.length} messages are present, the session answers {mine.length}"
+                    else c
+              sts.set i c.closeAll
+            | _ => sts
+        | [] => sts) sts
+      -- (b): two instances of one message shown at the same time
+      let overlap : Option String := (List.range sts.length).findSome? fun i =>
+        let c := sts.getD i {}
+        let known := c.dead.filterMap fun sl =>
+          match sl.uid, parseMbox sl.mb with
+          | some u, some mb => (rows.find? (·.1 == (mb, u))).map fun r => (sl, r.2)
+          | _, _ => none
+        known.findSome? fun a => known.findSome? fun b =>
+          if a.2 == b.2 && a.1.mb == b.1.mb && a.1.uid != b.1.uid && a.1.born < b.1.born &&
+              (match a.1.died with | some d => b.1.born < d | none => true) then
+            some s!"readd-before-removal: S{i} ({a.1.mb}): the re-added instance UID {b.1.uid.getD 0} of a message was announced while the removal of its instance UID {a.1.uid.getD 0} was not"
+          else none
+      let always := sts.findSome? (·.always)
+      let inside := (sts.findSome? (·.inside)).orElse fun _ => conv.orElse fun _ => overlap
+      match always, inside with
+      | some why, _ => s!"violation # property C05: {why}"
+      | none, some why =>
+        if ov == 0 then s!"violation {(why.splitOn ": ").headD "c05"}-inside-NoOvertake {why}"
+        else if strict then s!"violation # property C05: {why} (own update overtakes an earlier foreign one at {ov} step(s) of this schedule)"
+        else "ok outside-NoOvertake-announcements-differ"
+      | none, none =>
+        if sts.any (·.sawI) then (if ov > 0 then "ok nontrivial-heldback-overtake" else "ok nontrivial-heldback")
+        else if sts.any (·.sawX) then (if ov > 0 then "ok nontrivial-removals-overtake" else "ok nontrivial-removals")
+        else "ok trivial"
+    | _, _ => "violation unparsable-history"
+
+def judgeC05 (args : List String) : String := judgeC05With false args
+def judgeC05Strict (args : List String) : String := judgeC05With true args
 
 end Gluon.Driver.SysD
